@@ -1459,6 +1459,12 @@ def gen_name(src):
     return src.choice(NAMES) if src.bool(0.15) else src.choice(SIMPLE_NAMES)
 
 
+def gen_pname(src):
+    """name of a named parameter / key of a context entry: now and then `date` or `time`, which are plain names in front of a colon and the
+    beginning of a temporal literal anywhere else (they are not bound in the parsing scope)"""
+    return src.choice(["date", "time"]) if src.bool(0.2) else gen_name(src)
+
+
 def gen_num(src):
     style = src.weighted([(6, "int"), (3, "dec"), (1, "dot"), (1, "lead0"), (1, "long")])
     if style == "int":
@@ -1594,7 +1600,7 @@ def gen_tree(src, d, env=None):
     if k == "call":
         return ["call", g(), ["pos", [g() for _ in range(src.int(0, 2))]]]
     if k == "callnamed":
-        return ["call", g(), ["named", [[gen_name(src), g()] for _ in range(src.int(1, 2))]]]
+        return ["call", g(), ["named", [[gen_pname(src), g()] for _ in range(src.int(1, 2))]]]
     if k == "notcall":
         # the built-in function `not`: a name like any other, except at the very beginning of unary tests
         return ["call", ["name", "not"], ["pos", [g()]]]
@@ -1631,11 +1637,14 @@ def gen_tree(src, d, env=None):
     if k == "ctx":
         entries = []
         e = env
-        for _ in range(src.int(0, 2) if env is None else src.int(0, 3)):
+        count = src.int(0, 2) if env is None else src.int(0, 3)
+        for i in range(count):
             if src.bool(0.3):
                 entries.append([gen_keystr(src), "str", g(e)])
             else:
-                n = bind()
+                # `date` / `time` only as the LAST key: once an entry has that name, `date(...)` / `date and time(...)` in a later entry
+                # begin with a bound name
+                n = bind() if not (i == count - 1 and src.bool(0.25)) else src.choice(["date", "time"])
                 entries.append([n, "name", g(e)])      # a key is used by LATER entries only
                 e = ext(e, n)
         return ["ctx", entries]
